@@ -195,7 +195,33 @@ Section Sound.
     Definition mode_ok_s (sc : list props) (s : stmt) (kk : cexpr) : Prop :=
       fx = true \/ (sc = [] /\ wl_stmt s = true /\ (is_with s = true -> insens kk)).
     Definition mode_ok_b (sc : list props) (b : block) (kk : cexpr) : Prop :=
-      fx = true \/ (sc = [] /\ wl_block b = true /\ (ends_in_with b = true -> insens kk)).
+      fx = true \/ (sc = [] /\ wl_block b = true /\ (cont_annotated b = true -> insens kk)).
+
+    (* variable copies compile to something that does not look at the properties *)
+    Lemma insens_copies : forall b kk e,
+      copies b = true -> insens kk -> tr_block fc fx [] b (Some kk) = Some e -> insens e.
+    Proof.
+      induction b as [|s b IH]; intros kk e Hc Hk Htr.
+      - simpl in Htr. inversion Htr; subst e. exact Hk.
+      - rewrite tr_block_cons_some in Htr. simpl in Hc. apply andb_true_iff in Hc as [Hs Hb].
+        destruct (tr_block fc fx [] b (Some kk)) as [e'|] eqn:E; simpl in Htr; [|discriminate].
+        pose proof (IH kk e' Hb Hk E) as He'.
+        destruct s; simpl in Hs; try discriminate.
+        + destruct e0; try discriminate. simpl in Htr. inversion Htr; subst e.
+          intros fuel P P' r. rewrite !ceval_let1. simpl.
+          destruct (lookup r x0); simpl; try reflexivity. apply He'.
+        + simpl in Htr. inversion Htr; subst e. exact He'.
+    Qed.
+
+    Lemma copies_no_tail : forall b sc, copies b = true -> tr_block fc fx sc b None = None.
+    Proof.
+      induction b as [|s b IH]; intros sc Hc; [reflexivity|].
+      simpl in Hc. apply andb_true_iff in Hc as [Hs Hb].
+      destruct b as [|s2 b2].
+      - destruct s; simpl in Hs; try discriminate; reflexivity.
+      - change (obind (tr_block fc fx sc (BCons s2 b2) None) (fun e' => tr_stmt fc fx sc s (Some e')) = None).
+        rewrite (IH sc Hb). reflexivity.
+    Qed.
 
     Lemma mode_sub : forall sc s kk t x,
       mode_ok_s sc s kk -> (wl_stmt s = true -> wl_block t = true) -> mode_ok_b [] t (CVar x).
@@ -391,16 +417,14 @@ Section Sound.
           { destruct Hm as [Hf|[Hsc [Hwl Hins]]]; [left; exact Hf|]. right.
             split; [exact Hsc|]. simpl in Hwl.
             apply andb_true_iff in Hwl as [Hwl Hlast]. apply andb_true_iff in Hwl as [Hws Hwb].
-            split; [exact Hws|]. intro Hw.
-            destruct b.
-            - simpl in E. inversion E; subst e'. apply Hins. simpl. exact Hw.
-            - destruct s; simpl in Hw; try discriminate. }
+            split; [exact Hws|]. intro Hw. rewrite Hw in Hlast. subst sc.
+            eapply insens_copies; [exact Hlast| |exact E].
+            apply Hins. simpl. rewrite Hw, Hlast. reflexivity. }
           assert (Hmb : mode_ok_b sc b kk).
           { destruct Hm as [Hf|[Hsc [Hwl Hins]]]; [left; exact Hf|]. right.
             split; [exact Hsc|]. simpl in Hwl.
             apply andb_true_iff in Hwl as [Hwl Hlast]. apply andb_true_iff in Hwl as [Hws Hwb].
-            split; [exact Hwb|]. intro Hw. apply Hins.
-            destruct b; [simpl in Hw; discriminate|]. exact Hw. }
+            split; [exact Hwb|]. intro Hw. apply Hins. simpl. rewrite Hw. apply orb_true_r. }
           rewrite (IHs1 fuel sc P c r e' e Hg HrP Hcs Hms Htr).
           simpl. unfold cont.
           destruct (exec_stmt V N fuel c r s) as [[r'|v]| |]; simpl; try reflexivity.
@@ -419,7 +443,8 @@ Section Sound.
             { destruct Hm as [Hf|Hwl]; [left; exact Hf|right].
               split; [reflexivity|]. simpl in Hwl.
               apply andb_true_iff in Hwl as [Hwl Hlast]. apply andb_true_iff in Hwl as [Hws _].
-              split; [exact Hws|]. intro Hw. destruct s; simpl in Hw; try discriminate. }
+              split; [exact Hws|]. intro Hw. rewrite Hw in Hlast.
+              rewrite (copies_no_tail _ [] Hlast) in E. discriminate. }
             assert (Hmb : fx = true \/ wl_block (BCons s2 b2) = true).
             { destruct Hm as [Hf|Hwl]; [left; exact Hf|right].
               simpl in Hwl. apply andb_true_iff in Hwl as [Hwl _]. apply andb_true_iff in Hwl as [_ Hwb]. exact Hwb. }
